@@ -60,6 +60,7 @@ static void mkdir_p(SimFS *fs, const std::string &path_in) {
 
 DriveOut drive_reader(const Task &t, const Bytes &archive, const DriveOpts &o) {
 	DriveOut out;
+	if (!g_baton.active) sim_watchdog_kick();
 	SimSource *src = new SimSource;   // heap: survives a budget longjmp
 	src->kind = t.kind;
 	src->data = &archive;
